@@ -75,6 +75,14 @@ def run(case):
         window_orientation=case["orient"], mask_string=MASK if case["mask"] else None,
         nullify_mask=bool(case["nullify"]), **prune_params(case, True))
     X = to_X(case["trees"], case["fmt"])
+    if case.get("prehistory"):
+        # an earlier call on the SAME forest objects with one label pruned (its nodes are contracted): if that call
+        # edits the caller's adjacency matrices the measured fit below sees different trees than the model does
+        try:
+            first = sorted({l for t in case["trees"] for l in t["labels"]})[0]
+            LabelledTreeCooccurrenceVectorizer(window_radius=1, ignored_tokens={lab(first)}).fit(X)
+        except Exception:  # noqa
+            pass
     ft = tm.fit_transform(X)
     res["fit"] = dense(ft)
     res["dict"] = dict_out(tm.token_label_dictionary_)
